@@ -358,3 +358,240 @@ def render_check(tier):
                 fails.append(("GraphQLSyntaxError:renderable", {"text": text, "position": pos, "render_error": type(ex).__name__},
                               "rendering a syntax error at position %d of %r raised %r" % (pos, text, ex)))
     return n, fails
+
+
+# -------------------------------------------------------------------------------------------
+# C02: tree mirrors the source (bounded, over accepted corpus texts)
+
+def _tree_chunk(items):
+    from . import treecheck as TC
+    from py_gql.exc import GraphQLSyntaxError
+    n = nodes = 0
+    fails = []
+    for entry, text in items:
+        for efv in (False, True):
+            flags = {"allow_type_system": True, "experimental_fragment_variables": efv} if entry == "document" else {}
+            if entry != "document" and efv:
+                continue
+            try:
+                doc = _entry_call(entry)(text, **flags)
+            except GraphQLSyntaxError:
+                continue
+            n += 1
+            for clause, detail in TC.check_tree(text, doc, flags) + TC.check_no_location(text, doc, entry, flags):
+                fails.append((clause, {"text": text, "entry": entry, "fragment_variables": efv}, detail))
+            nodes += sum(1 for _ in TC.walk(doc))
+    return n, nodes, fails
+
+
+def tree_check(tier, seed, jobs=16):
+    items = [(e, t) for e, t in pipeline_corpus(tier, seed)]
+    size = max(1, len(items) // (jobs * 6))
+    chunks = [items[i:i + size] for i in range(0, len(items), size)]
+    total = nodes = 0
+    fails = []
+    ctx = mp.get_context("fork")
+    with ctx.Pool(jobs) as pool:
+        for n, nn, f in pool.imap_unordered(_tree_chunk, chunks):
+            total += n
+            nodes += nn
+            fails += f
+    return total, nodes, fails
+
+
+# -------------------------------------------------------------------------------------------
+# C02: parse_block_string(raw) == BlockStringValue(raw)
+
+BLOCK_ALPHABET = ["a", " ", "\t", "\n", "\r", "\u00a0", "\u0085", "\u2028", '"', "\\"]
+BLOCK_LINES = ["", "a", " a", "  a", "\ta", " ", "  ", "a ", "\u00a0a", "\u00a0", "\u2028 \u0085 b", '"', "\\"]
+BLOCK_SEPS = ["\n", "\r", "\r\n"]
+
+
+def _block_chunk(raws):
+    from py_gql._string_utils import parse_block_string
+    fails = []
+    for raw in raws:
+        try:
+            got = parse_block_string(raw)
+        except Exception as e:
+            fails.append(("parse_block_string:ensures:block-string-value", {"raw": raw}, "raised %r" % (e,)))
+            continue
+        want = SB.block_string_value(raw)
+        if got != want:
+            fails.append(("parse_block_string:ensures:block-string-value", {"raw": raw},
+                          "parse_block_string(%r) == %r but BlockStringValue gives %r" % (raw, got, want)))
+    return len(raws), fails
+
+
+def block_string_check(tier, jobs=16):
+    raws = list(strings(BLOCK_ALPHABET, 6 if tier == "thorough" else 5))
+    for k in (2, 3, 4) if tier != "thorough" else (2, 3, 4, 5):
+        for lines in itertools.product(BLOCK_LINES, repeat=k):
+            for sep in BLOCK_SEPS:
+                raws.append(sep.join(lines))
+            if k == 3:
+                raws.append(lines[0] + "\n" + lines[1] + "\r" + lines[2])
+    raws = list(dict.fromkeys(raws))
+    size = max(1, len(raws) // (jobs * 4))
+    chunks = [raws[i:i + size] for i in range(0, len(raws), size)]
+    total, fails = 0, []
+    ctx = mp.get_context("fork")
+    with ctx.Pool(jobs) as pool:
+        for n, f in pool.imap_unordered(_block_chunk, chunks):
+            total += n
+            fails += f
+    return total, fails
+
+
+# -------------------------------------------------------------------------------------------
+# C03: print o parse round trip (bounded)
+
+PAYLOAD_ALPHABET = ["a", " ", "\t", "\n", '"', "\\", "\U0001F600", "\u00a0", "\u00e9", "\r"]
+INDENTS = [0, 1, 2, 4, "\t"]
+
+
+def quote(payload):
+    """GraphQL quoted-string source text for an arbitrary payload (specification-level encoder)"""
+    out = []
+    for ch in payload:
+        if ch == '"' or ch == "\\":
+            out.append("\\" + ch)
+        elif ord(ch) < 0x20 and ch != "\t" or ch in "\n\r":
+            out.append("\\u%04x" % ord(ch))
+        else:
+            out.append(ch)
+    return '"' + "".join(out) + '"'
+
+
+def block_quote(payload):
+    if any(ord(c) < 0x20 and c not in "\t\n\r" for c in payload):
+        return None
+    return '"""' + payload.replace('"""', '\\"""') + '"""'
+
+
+STRING_TEMPLATES = [("document", '{ f(x: %s) }'), ("document", '%s scalar S'), ("document", 'type T { %s f(%s a: Int = 1): Int }'),
+                    ("document", 'enum E { %s A }'), ("document", 'query ($v: String = %s @d(r: %s)) { f }'),
+                    ("document", 'input I { %s a: String = %s }'), ("value", '[%s, {k: %s}]'), ("document", '%s directive @d(%s a: Int) on FIELD')]
+
+
+def roundtrip_corpus(tier, seed):
+    out, seen = [], set()
+
+    def add(entry, text):
+        if (entry, text) not in seen:
+            seen.add((entry, text))
+            out.append((entry, text))
+    from . import gen_docs as GD
+    for efv in (False, True):
+        for entry, toks in GD.corpus(tier, seed, efv):
+            add(entry, GD.render(toks))
+    payloads = list(strings(PAYLOAD_ALPHABET, 3 if tier == "thorough" else 2)) + \
+        ["a\\", " a\\", 'a"', ' a"', '"""', 'a"""b', "\\\"\"\"", " \n a\n  b", "a\n\n b\n", "  a\n b", "\ta", "a\\\n", " \\", "\"", "\n", " "]
+    for p in dict.fromkeys(payloads):
+        forms = [quote(p), block_quote(p)]
+        for f in forms:
+            if f is None:
+                continue
+            for entry, tpl in STRING_TEMPLATES:
+                add(entry, tpl.replace("%s", f))
+    return out
+
+
+def _roundtrip_chunk(items):
+    from py_gql.exc import GraphQLSyntaxError
+    from py_gql.lang.printer import print_ast
+    from . import treecheck as TC
+    n = 0
+    fails = []
+    for entry, text in items:
+        call = _entry_call(entry)
+        for efv in ((False, True) if entry == "document" else (False,)):
+            flags = {"allow_type_system": True, "experimental_fragment_variables": efv} if entry == "document" else {}
+            try:
+                t1 = call(text, no_location=True, **flags)
+            except GraphQLSyntaxError:
+                continue
+            n += 1
+            for indent in INDENTS:
+                w = {"text": text, "entry": entry, "indent": indent, "fragment_variables": efv}
+                try:
+                    p1 = print_ast(t1, indent=indent)
+                    p1b = print_ast(t1, indent=indent)
+                except Exception as e:
+                    fails.append(("print_ast:never-raises", dict(w, exc=type(e).__name__), "printing the parsed tree raised %r" % (e,)))
+                    continue
+                if p1 != p1b:
+                    fails.append(("print_ast:deterministic", w, "two calls printed different text"))
+                try:
+                    t2 = call(p1, no_location=True, **flags)
+                except GraphQLSyntaxError as e:
+                    fails.append(("print_ast:output-parses", dict(w, printed=p1), "printed text %r is rejected by the parser: %s" % (p1[:80], type(e).__name__)))
+                    continue
+                if t2 != t1:
+                    d1, d2 = TC.strip(t1.to_dict()), TC.strip(t2.to_dict())
+                    diff = _first_diff(d1, d2)
+                    fails.append(("print_ast:roundtrip-equal", dict(w, printed=p1, diff=diff),
+                                  "parse(print(tree)) differs from tree at %s" % (diff,)))
+                    if _is_member_description(diff):
+                        # look past the (separately reported) dropped member descriptions
+                        diff2 = _first_diff(_drop_member_descriptions(d1), _drop_member_descriptions(d2))
+                        if diff2:
+                            fails.append(("print_ast:roundtrip-equal", dict(w, printed=p1, diff=diff2),
+                                          "parse(print(tree)) differs from tree at %s" % (diff2,)))
+                    continue
+                p2 = print_ast(t2, indent=indent)
+                if p2 != p1:
+                    fails.append(("print_ast:fixpoint", dict(w, printed=p1), "printing the re-parsed tree gives different text"))
+    return n, fails
+
+
+MEMBER_KINDS = ("FieldDefinition", "InputValueDefinition", "EnumValueDefinition")
+
+
+def _is_member_description(diff):
+    import re
+    return bool(diff) and re.search(r"\.(fields|arguments|values)\[\d+\]\.description: \{.*\} vs None$", diff) is not None
+
+
+def _drop_member_descriptions(d):
+    if isinstance(d, dict):
+        return {k: (None if k == "description" and d.get("__kind__") in MEMBER_KINDS else _drop_member_descriptions(v))
+                for k, v in d.items()}
+    if isinstance(d, list):
+        return [_drop_member_descriptions(x) for x in d]
+    return d
+
+
+def _first_diff(a, b, path=""):
+    if type(a) is not type(b):
+        return "%s: %r vs %r" % (path, a, b)
+    if isinstance(a, dict):
+        for k in a:
+            if k not in b:
+                return "%s.%s missing" % (path, k)
+            d = _first_diff(a[k], b[k], path + "." + k)
+            if d:
+                return d
+        return None
+    if isinstance(a, list):
+        if len(a) != len(b):
+            return "%s: %d vs %d items" % (path, len(a), len(b))
+        for i, (x, y) in enumerate(zip(a, b)):
+            d = _first_diff(x, y, "%s[%d]" % (path, i))
+            if d:
+                return d
+        return None
+    return None if a == b else "%s: %r vs %r" % (path, a, b)
+
+
+def roundtrip_check(tier, seed, jobs=16):
+    items = roundtrip_corpus(tier, seed)
+    size = max(1, len(items) // (jobs * 6))
+    chunks = [items[i:i + size] for i in range(0, len(items), size)]
+    total, fails = 0, []
+    ctx = mp.get_context("fork")
+    with ctx.Pool(jobs) as pool:
+        for n, f in pool.imap_unordered(_roundtrip_chunk, chunks):
+            total += n
+            fails += f
+    return len(items), total, fails
